@@ -234,6 +234,13 @@ def impl_eval(line: str) -> str:
         if op == "pfu":
             r = D.periods_from_until(parse_endpoint(ws[1]), parse_endpoint(ws[2]), int(ws[3]))
             return "[" + ",".join(show_period(p) for p in r) + "]"
+        if op in ("sfs", "sfl"):
+            fn = D.spans_from_short_span if op == "sfs" else D.spans_from_long_span
+            short, long_ = fn(frame_iterable(parse_endpoint(ws[1]), parse_endpoint(ws[2])), int(ws[3]), int(ws[4]))
+            return "[" + ",".join(show_period(p) for p in short) + "]|[" + ",".join(show_period(p) for p in long_) + "]"
+        if op == "ext":
+            r = D.extend_span(frame_iterable(parse_endpoint(ws[1]), parse_endpoint(ws[2])), int(ws[3]), int(ws[4]), ws[5] == "1", ws[6] == "1")
+            return show_period(r[0]) + " " + show_period(r[1])
         if op in ("span", "span>>", "span<<"):
             return impl_span_line(ws)
         if op == "speq":
@@ -448,6 +455,27 @@ def gen_span_lines(ctx: Ctx):
             for st in (-2, -1, 1, 2, 3):
                 lines.append(f"pfu {f}:{base[f]} {f}:{base[f] + d} {st}")
     lines.append("pfu Q:1 M:5 1")
+    # simulation frames: spans_from_short_span / spans_from_long_span / extend_span
+    k = len(lines)
+    for f in ("Y", "Q", "M", "I", "D"):
+        for d in (0, 1, 2, 5):
+            for lag in (-3, -1, 0, 2):
+                for lead in (-1, 0, 1, 4):
+                    lines.append(f"sfs {f}:{base[f]} {f}:{base[f] + d} {lag} {lead}")
+                    lines.append(f"sfl {f}:{base[f] + lag} {f}:{base[f] + d + lead} {lag} {lead}")
+            for lo, hi in ((-2, 3), (0, 0), (-1, 0), (1, -1)):
+                for pre in "01":
+                    for app in "01":
+                        lines.append(f"ext {f}:{base[f]} {f}:{base[f] + d} {lo} {hi} {pre} {app}")
+    for _ in range(ctx.n(200, 3000)):
+        f = rng.choice(["Y", "H", "Q", "M", "D", "I"])
+        a0 = base[f] + rng.randint(-30, 30)
+        d, lag, lead = rng.randint(0, 12), rng.randint(-6, 3), rng.randint(-3, 6)
+        lines.append(f"{rng.choice(['sfs', 'sfl'])} {f}:{a0} {f}:{a0 + d} {lag} {lead}")
+        lines.append(f"ext {f}:{a0} {f}:{a0 + d} {rng.randint(-6, 3)} {rng.randint(-3, 6)} {rng.randint(0, 1)} {rng.randint(0, 1)}")
+    lines.append("sfs Q:1 M:5 -1 1")
+    lines.append("sfl Q:1 M:5 -1 1")
+    ctx.count("frame_lines", len(lines) - k)
     # span == span: equal and unequal triples of one frequency, different frequencies with equal and with different steps,
     # open ends
     k = len(lines)
@@ -676,6 +704,57 @@ def oracle_span_eq(ctx: Ctx, line, ws):
     ctx.nontriv(("speq", fa == fb, int(ws[3]) == int(ws[6])))
 
 
+def frame_iterable(a, b):
+    """the iterable handed to spans_from_short_span / spans_from_long_span / extend_span: they read only its first and
+    last element, so the shape alternates between a pair, a Span and a tuple of all periods (when a <= b is one frequency)"""
+    if type(a) is type(b) and a.serial <= b.serial:
+        k = (a.serial + b.serial) % 3
+        if k == 0:
+            return ir.Span(a, b)
+        if k == 1:
+            return tuple(D.periods_from_until(a, b))
+    return (a, b)
+
+
+def oracle_frames(ctx: Ctx, line, ws):
+    """spans_from_short_span / spans_from_long_span: the short span is first..last, the long span is the short one moved
+    by (max_lag, max_lead) at its two ends, the two functions invert each other; extend_span moves an end exactly when
+    its switch is on"""
+    a, b = parse_endpoint(ws[1]), parse_endpoint(ws[2])
+    if type(a) is not type(b) or (ws[0] != "ext" and a.serial > b.serial):
+        return   # mixed frequencies / an inverted pair are rejected (tie: theorem spansFrom_inverted_rejected)
+    ctx.evaluations += 1
+    K = type(a)
+    try:
+        if ws[0] == "ext":
+            lo, hi, pre, app = int(ws[3]), int(ws[4]), ws[5] == "1", ws[6] == "1"
+            s, e = D.extend_span(frame_iterable(a, b), lo, hi, pre, app)
+            want = (a.serial + (lo if pre else 0), b.serial + (hi if app else 0))
+            if (s.serial, e.serial) != want or type(s) is not K or type(e) is not K:
+                ctx.fail("extend-span", {"line": line}, f"extend_span -> {(s.serial, e.serial)}, expected {want}")
+            ctx.nontriv(("ext", pre, app))
+            return
+        lag, lead = int(ws[3]), int(ws[4])
+        if ws[0] == "sfs":
+            short, long_ = D.spans_from_short_span(frame_iterable(a, b), lag, lead)
+            want_s, want_l = list(range(a.serial, b.serial + 1)), list(range(a.serial + lag, b.serial + lead + 1))
+        else:
+            short, long_ = D.spans_from_long_span(frame_iterable(a, b), lag, lead)
+            want_l, want_s = list(range(a.serial, b.serial + 1)), list(range(a.serial - lag, b.serial - lead + 1))
+        got_s, got_l = [p.serial for p in short], [p.serial for p in long_]
+        if got_s != want_s or got_l != want_l or any(type(p) is not K for p in tuple(short) + tuple(long_)):
+            ctx.fail("simulation-frame-spans", {"line": line}, f"{ws[0]} -> short {got_s[:8]} long {got_l[:8]}, expected short {want_s[:8]} long {want_l[:8]}")
+            return
+        if ws[0] == "sfs" and got_l:
+            back_s, back_l = D.spans_from_long_span(long_, lag, lead)
+            if [p.serial for p in back_s] != got_s or [p.serial for p in back_l] != got_l:
+                ctx.fail("simulation-frame-spans", {"line": line}, f"spans_from_long_span does not invert spans_from_short_span: short {[p.serial for p in back_s][:8]} vs {got_s[:8]}")
+                return
+        ctx.nontriv((ws[0], lag < 0, lag > 0, lead > 0, lead < 0, len(got_s) > 1))
+    except Exception as e:
+        ctx.fail("simulation-frame-spans", {"line": line}, f"{ws[0]}: {e!r}")
+
+
 def oracle_pfu(ctx: Ctx, line, ws):
     """periods_from_until(a, b, step) (and its aliases periods_from_to / daters_from_to) lists a, a+step, ... while <= b"""
     a, b, st = parse_endpoint(ws[1]), parse_endpoint(ws[2]), int(ws[3])
@@ -742,6 +821,9 @@ def oracle_spans(ctx: Ctx, lines):
             continue
         if ws[0] == "pfu":
             oracle_pfu(ctx, line, ws)
+            continue
+        if ws[0] in ("sfs", "sfl", "ext"):
+            oracle_frames(ctx, line, ws)
             continue
         if ws[0] == "speq":
             oracle_span_eq(ctx, line, ws)
@@ -921,7 +1003,7 @@ def search(ctx: Ctx, seeds):
     ctx.tier = "quick"   # bounded: quick enumeration without thinning (~1 min)
     oracle_calendar(ctx, budget_scale=10)
     oracle_arith(ctx, gen_cmp_lines(ctx))
-    oracle_spans(ctx, gen_span_lines(ctx) + [c for c in seeds if isinstance(c, str) and (c.startswith("span") or c.startswith("enc") or c.startswith("pfu") or c.startswith("speq"))])
+    oracle_spans(ctx, gen_span_lines(ctx) + [c for c in seeds if isinstance(c, str) and (c.startswith("span") or c.startswith("enc") or c.startswith("pfu") or c.startswith("speq") or c.startswith("sfs") or c.startswith("sfl") or c.startswith("ext "))])
 
 
 def replay(ctx: Ctx, payload):
